@@ -26,9 +26,10 @@ RULE = ("one case = one library x profile x option combination x seed x path; no
 
 
 def plan(ctx):
-    n = 1600 if ctx.thorough else 330
-    m = 240 if ctx.thorough else 48
-    return [("rs", i) for i in range(n)] + [("craft", i) for i in range(m)]
+    n = 6000 if ctx.thorough else 330
+    m = 800 if ctx.thorough else 48
+    t = 300 if ctx.thorough else 36
+    return [("rs", i) for i in range(n)] + [("craft", i) for i in range(m)] + [("thresh", i) for i in range(t)]
 
 
 def pick_size(rng, kind, thorough):
@@ -44,7 +45,7 @@ def pick_size(rng, kind, thorough):
 
 def gen_case(ctx, g, rng, craft=False):
     index = g["index"]
-    kind = "neginf" if craft else PROFILES[index % len(PROFILES)]
+    kind = ("neginf" if craft == "craft" else "graded") if craft else PROFILES[index % len(PROFILES)]
     pr = rc.problem(ctx, index % len(rc.PROBLEM_SHAPES))
     N = pick_size(rng, kind, ctx.thorough)
     lib = rc.Library(rng, pr, N, with_ln_prior=True)
@@ -107,7 +108,7 @@ def describe(c, extra=None):
 def run_case(ctx, g):
     ctx.seed = g.get("seed", ctx.seed)
     rng = ctx.case_rng(g["kind"], g["index"])
-    craft = g["kind"] == "craft"
+    craft = g["kind"] if g["kind"] in ("craft", "thresh") else False
     c = gen_case(ctx, g, rng, craft=craft)
     lib, N = c["lib"], c["N"]
     try:
@@ -127,10 +128,20 @@ def _run(ctx, g, c, rng, craft):
         ch = gen.of("choice")
         order = list(ch[-1]["out"]) if ch else list(range(len(out)))
         sub = np.random.default_rng(c["gseed"] + 1)
-        for pos in range(min(len(out), len(order))):
-            if 0 <= order[pos] < N and profile[order[pos]] == -np.inf and sub.random() < zero_p:
-                out[pos] = 0.0
-                placed.append(pos)
+        n = min(len(out), len(order))
+        if craft == "craft":      # u = 0.0 (a legal draw of uniform[0,1)) on rows whose likelihood is -inf
+            for pos in range(n):
+                if 0 <= order[pos] < N and profile[order[pos]] == -np.inf and sub.random() < zero_p:
+                    out[pos] = 0.0
+                    placed.append(pos)
+        else:                     # u within one ulp of exp(ll - max): decisions at the float threshold
+            m_ = max(profile[order[pos]] for pos in range(n))
+            for pos in sub.permutation(n)[:8]:
+                e_ = float(np.exp(profile[order[pos]] - m_))
+                u_ = [e_, float(np.nextafter(e_, 0.0)), float(np.nextafter(e_, 1.0))][int(sub.integers(0, 3))]
+                if 0.0 <= u_ < 1.0:
+                    out[pos] = u_
+                    placed.append(int(pos))
         return out
 
     gen = rc.CraftGen(c["gseed"], crafter if craft else None)
@@ -144,8 +155,10 @@ def _run(ctx, g, c, rng, craft):
     tags = dict(path=c["path"], profile=c["kind"], shuffle=c["shuffle"])
     ctx.count(f"profile:{c['kind']}")
     ctx.count(f"path:{c['path']}")
-    if craft:
+    if craft == "craft":
         ctx.count("craft:u=0 on -inf row", len(placed))
+    elif craft == "thresh":
+        ctx.count("craft:u within 1 ulp of exp(ll-max)", len(placed))
 
     # ---- outside the property's domain: every evaluated likelihood is -inf (no finite value next to them)
     ev_rows = [r for e_ in gen.calls if e_["method"] == "ll" for r in e_["rows"]]
@@ -256,6 +269,8 @@ def _run(ctx, g, c, rng, craft):
     sure, border = rc.oracle_accept(lls, uu)
     sel = rc.consistent_selection(sure, border, c["max_post"], positions)
     n_acc = len(sure)
+    if border:
+        ctx.count("cases with borderline decisions")
     nontriv = 0 < n_acc < n_eval
     binding = c["max_post"] is not None and c["max_post"] < n_acc
     for name, on in (("opt:shuffle", c["shuffle"]), ("opt:n_prior<N", n_eval < N), ("opt:truncation binding", binding),
@@ -308,6 +323,8 @@ def post(ctx):
               "opt:return_all_logprobs", "some rejected"):
         ctx.require(o, ctx.counters[o], need)
     ctx.require("u = 0.0 placed on a -inf row", ctx.counters["craft:u=0 on -inf row"], need)
+    ctx.require("u placed within 1 ulp of the threshold", ctx.counters["craft:u within 1 ulp of exp(ll-max)"], need)
+    ctx.require("borderline decisions recognised by the oracle", ctx.counters["cases with borderline decisions"], need)
     ctx.require("single-row libraries", ctx.counters["N=1"], 3)
     ctx.require("libraries > 300 rows", ctx.counters["N>300"], 3)
     ctx.assumptions = core.TRUSTED_BASE + [
